@@ -13,12 +13,9 @@ theorem stepFn_sound {cfg : Cfg} {ga : Nat → Int} {s s' : S} {t : Tid} {a : Ac
       split at h
       · next hc => cases h; exact Step.wkAcquire s hc.1 hc.2
       · cases h
-    case wkPop =>
+    case wkPop b =>
       split at h
-      · next b q hq =>
-        split at h
-        · next hc => cases h; exact Step.wkPop s b q hc hq
-        · cases h
+      · next hc => cases h; exact Step.wkPop s b hc.1 hc.2
       · cases h
     case wkWait =>
       split at h
